@@ -102,7 +102,7 @@ ForcedCall(u, sel, rcv) == [m |-> "recover", s |-> u, paginated |-> "none", has_
 FeeWithdrawCall(u, a) == [m |-> "fee_withdraw", s |-> u, amt |-> a]
 BreakerCall(u) == [m |-> "circuit_breaker", s |-> u]
 ResumeCall(u, n, l, r) == [m |-> "resume_contract", s |-> u, n |-> n, l |-> l, r |-> r]
-TimeCall(t) == [m |-> "time", t |-> t]
+TimeCall(t) == [m |-> "time", t |-> t, ns |-> 0]
 NatFundCall(a, x) == [m |-> "nat_fund", a |-> a, x |-> x]
 
 FailSeqs == {<< >>} \cup {<<i>> : i \in SubmitFails}
@@ -155,8 +155,8 @@ Stake        == \E u \in Users, a \in StakeAmts, k \in RcvKinds, f \in FailSeqs 
 \* expected_mint_amount one below (a guard, not the amount minted) / exactly met / one above; minting to another protocol-chain account
 ExactMint(a) == LET sweep == w.c.L = 0 /\ w.c.N # 0 IN MintAmount(IF sweep THEN 0 ELSE w.c.N, w.c.L, a)
 StakeVariants == \/ /\ "slippage" \in Extras
-                    /\ \E u \in Users, a \in StakeAmts, d \in {-1, 0, 1} :
-                          ExactMint(a) + d >= 0 /\ Do(StakeCallX(u, a, "self", << >>, ExactMint(a) + d, ""))
+                    /\ \E u \in Users, a \in StakeAmts, d \in {-1, 0, 1}, k \in {"self", "native"} :
+                          ExactMint(a) + d >= 0 /\ Do(StakeCallX(u, a, k, << >>, ExactMint(a) + d, ""))
                  \/ /\ "mintto" \in Extras
                     /\ \E u \in Users, a \in StakeAmts, o \in (Users \cup {"c1", "u1"}) : o # u /\ Do(StakeCallX(u, a, "other", << >>, NoAmt, o))
 Unstake      == \E u \in Users, a \in UnstakeAmts : Bal(w.bank, u, LstD) >= a /\ Do(UnstakeCall(u, a))
@@ -179,6 +179,8 @@ WrongSender  == "wrongsender" \in Extras /\
                   \/ \E a \in RewardAmts : Do(RewardsCall(a, Collector) @@ [den |-> "OTHERIBC"])
                   \* forced recovery by somebody who is not the admin, of any tracked packet (in flight or not)
                   \/ \E p \in w.c.pk, u \in Principals : u # w.c.admin /\ Do(ForcedCall(u, <<p.seq>>, IF p.rcv = Staker THEN "" ELSE p.rcv))
+\* ("direct" also lets the funded admin stake like anybody else - in particular while the contract is halted)
+AdminStake   == "direct" \in Extras /\ \E a \in StakeAmts : Bal(w.bank, "admin", NatD) >= a /\ Do(StakeCall("admin", a, "self", << >>))
 Direct       == "direct" \in Extras /\ \E u \in Principals :
                   \/ Do([m |-> "receive_rewards", s |-> u, funds |-> << >>])
                   \/ \E b \in BatchIds(w.c) : Do([m |-> "receive_unstaked_tokens", s |-> u, b |-> b, funds |-> << >>])
@@ -268,10 +270,11 @@ Resume       == AdminOps /\ w.c.stopped /\ \E u \in Principals, k \in ResumeScal
                      /\ (k = "rewards0" => w.c.rewards > 0)
                      \* ("rewards0": the reward counter is corrected as well - downwards)
                      /\ Do(ResumeCall(u, n, l, IF k = "rewards0" THEN 0 ELSE w.c.rewards))
-Tick         == \E t \in TimePoints : Do(TimeCall(t))
+\* (the last second before a deadline is visited at its very end, .999999999: whole seconds decide, not nanoseconds)
+Tick         == \E t \in TimePoints : Do([TimeCall(t) EXCEPT !.ns = IF (t + 1) \in Deadlines THEN 999999999 ELSE 0])
 
 Next == Stake \/ StakeVariants \/ BadInputs \/ Unstake \/ Submit \/ Withdraw_ \/ Rewards \/ ReturnBatch \/ WrongSender \/ Direct \/ TopUp
-        \/ Relay \/ Stray_ \/ Recover_ \/ Forced \/ FeeWithdraw_ \/ Breaker \/ Resume \/ Matrix \/ Toggle \/ TSpend \/ Rechannel \/ NewCounter \/ Reperiod \/ Demonitor \/ Unoracle \/ Tick
+        \/ Relay \/ Stray_ \/ Recover_ \/ Forced \/ FeeWithdraw_ \/ Breaker \/ Resume \/ Matrix \/ Toggle \/ TSpend \/ Rechannel \/ NewCounter \/ Reperiod \/ Demonitor \/ Unoracle \/ AdminStake \/ Tick
 
 Spec == Init /\ [][Next]_vars
 
